@@ -1,0 +1,54 @@
+//go:build verif
+
+// Verification hooks for mod_prison (add-only; compiled only with -tags verif).
+//
+// The production constructor takes CheckPeriod/StayPeriod in whole seconds and
+// the rule reads time.Now() directly, so a runtime monitor that wants to drive
+// thousands of timed histories needs periods in the millisecond range. The
+// hook builds a real prisonRule through the real checker/constructor/initDict
+// and only overwrites the two period fields; every request goes through the
+// real recordAndCheck.
+
+package mod_prison
+
+import (
+	"time"
+)
+
+import (
+	"github.com/bfenetworks/bfe/bfe_basic"
+)
+
+// VerifPrisonRule is a handle on one real prisonRule.
+type VerifPrisonRule struct {
+	rule *prisonRule
+}
+
+// VerifNewPrisonRule validates conf with PrisonRuleCheck, builds the rule with
+// newPrisonRule, replaces the periods by the given durations (conf.CheckPeriod
+// and conf.StayPeriod must still be valid second values) and creates fresh
+// access/prison dicts with initDict(nil), as productRuleTable.load does for a
+// new rule.
+func VerifNewPrisonRule(conf PrisonRuleConf, checkPeriod, stayPeriod time.Duration) (*VerifPrisonRule, error) {
+	if err := PrisonRuleCheck(&conf); err != nil {
+		return nil, err
+	}
+	rule, err := newPrisonRule(conf)
+	if err != nil {
+		return nil, err
+	}
+	rule.checkPeriodNs = int64(checkPeriod)
+	rule.stayPeriodNs = int64(stayPeriod)
+	rule.initDict(nil)
+	return &VerifPrisonRule{rule: rule}, nil
+}
+
+// Match evaluates the rule condition as processRules does before counting.
+func (v *VerifPrisonRule) Match(req *bfe_basic.Request) bool {
+	return v.rule.cond.Match(req)
+}
+
+// RecordAndCheck is the per-request entry used by processRules: true = deny.
+func (v *VerifPrisonRule) RecordAndCheck(req *bfe_basic.Request) bool {
+	return v.rule.recordAndCheck(req)
+}
